@@ -62,6 +62,7 @@ type FnVerifier struct {
 	loopSeen   map[string]*loopInfo
 	dry        bool
 	rootVars   map[string]TV
+	pending    []*pendingObl
 }
 
 // frame is the execution of one function body (root or inlined).
@@ -82,6 +83,7 @@ type frame struct {
 	loops    map[*ssa.BasicBlock]*loopInfo
 	debug    map[*ssa.BasicBlock][]debugRef
 	deferred []*ssa.Defer
+	sortArg  *ssa.MakeInterface
 }
 
 type exit struct {
@@ -111,6 +113,7 @@ type loopInfo struct {
 	preNow   Term
 	modArrs  []string
 	locs     []modLoc
+	entryPhis map[*ssa.Phi]Val
 }
 
 func (v *FnVerifier) note(format string, args ...interface{}) {
@@ -493,6 +496,32 @@ func (v *FnVerifier) oblige(kind, name string, tags []string, reach, goal Term, 
 	o := &Obligation{Name: name, Kind: kind, Func: v.fc.Key, Tags: tags, Mark: v.ctx.Mark(), Reach: reach, Goal: goal, Pos: pos, Src: src, ctx: v.ctx}
 	v.obls = append(v.obls, o)
 	return o
+}
+
+type pendingObl struct {
+	kind, name string
+	tags       []string
+	goals      []Term
+	pos, src   string
+}
+
+// pend accumulates goals of the same named obligation (several back edges of one
+// loop); they are conjoined into one obligation when the function is finished.
+func (v *FnVerifier) pend(kind, name string, tags []string, reach, goal Term, pos, src string) {
+	for _, p := range v.pending {
+		if p.name == name {
+			p.goals = append(p.goals, Implies(reach, goal))
+			return
+		}
+	}
+	v.pending = append(v.pending, &pendingObl{kind: kind, name: name, tags: tags, goals: []Term{Implies(reach, goal)}, pos: pos, src: src})
+}
+
+func (v *FnVerifier) flushPending() {
+	for _, p := range v.pending {
+		v.oblige(p.kind, p.name, p.tags, TTrue, And(p.goals...), p.pos, p.src)
+	}
+	v.pending = nil
 }
 
 // safety records a no-panic condition of the given class and narrows reach.
